@@ -56,6 +56,15 @@ func (c *Ctx) stateMapWrites(fields ...*types.Var) []mapWrite {
 						out = append(out, mapWrite{fi: fi, node: x, field: f, recv: se.X, key: astx.Expand(fi.Info(), ie.Index), val: val})
 					}
 				}
+			case *ast.IncDecStmt:
+				// m[k]++ assigns into the map as well
+				if ie, ok := ast.Unparen(x.X).(*ast.IndexExpr); ok {
+					if se, ok := ast.Unparen(ie.X).(*ast.SelectorExpr); ok {
+						if f := astx.FieldSel(info, se); f != nil && want[f] {
+							out = append(out, mapWrite{fi: fi, node: x, field: f, recv: se.X, key: astx.Expand(fi.Info(), ie.Index)})
+						}
+					}
+				}
 			case *ast.ExprStmt:
 				call, ok := x.X.(*ast.CallExpr)
 				if !ok || astx.Builtin(info, call) != "delete" || len(call.Args) != 2 {
